@@ -43,11 +43,11 @@ impl Lint for EmptyIfLint {
         visitor
             .positions
             .into_iter()
-            .filter(|(position, _)| {
+            .filter(|(_, comment_span, _)| {
                 // OPTIMIZE: This is O(n^2), can we optimize this?
                 if self.config.comments_count {
                     !comment_positions.iter().any(|comment_position| {
-                        position.0 <= *comment_position && position.1 >= *comment_position
+                        comment_span.0 <= *comment_position && comment_span.1 >= *comment_position
                     })
                 } else {
                     true
@@ -56,7 +56,7 @@ impl Lint for EmptyIfLint {
             .map(|position| {
                 Diagnostic::new(
                     "empty_if",
-                    match position.1 {
+                    match position.2 {
                         EmptyIfKind::If => "empty if block",
                         EmptyIfKind::ElseIf => "empty elseif block",
                         EmptyIfKind::Else => "empty else block",
@@ -75,19 +75,33 @@ fn block_is_empty(block: &ast::Block) -> bool {
 
 struct EmptyIfVisitor {
     comment_positions: Vec<u32>,
-    positions: Vec<((u32, u32), EmptyIfKind)>,
+    // (label, where a comment makes the block count as not empty, kind)
+    positions: Vec<((u32, u32), (u32, u32), EmptyIfKind)>,
 }
 
 impl Visitor for EmptyIfVisitor {
     fn visit_if(&mut self, if_block: &ast::If) {
         if block_is_empty(if_block.block()) {
-            self.positions.push((
-                if_block
-                    .range()
-                    .map(|(start, end)| (start.bytes() as u32, end.bytes() as u32))
-                    .unwrap(),
-                EmptyIfKind::If,
-            ));
+            let label = if_block
+                .range()
+                .map(|(start, end)| (start.bytes() as u32, end.bytes() as u32))
+                .unwrap();
+
+            // Only comments inside this block count, not the ones in later branches
+            let next_token_position = match if_block.else_if().and_then(|else_ifs| else_ifs.first())
+            {
+                Some(else_if) => else_if.start_position().unwrap().bytes() as u32,
+                None => {
+                    if let Some(else_block) = if_block.else_token() {
+                        else_block.start_position().unwrap().bytes() as u32
+                    } else {
+                        if_block.end_token().start_position().unwrap().bytes() as u32
+                    }
+                }
+            };
+
+            self.positions
+                .push((label, (label.0, next_token_position), EmptyIfKind::If));
         }
 
         if let Some(else_ifs) = if_block.else_if() {
@@ -106,26 +120,24 @@ impl Visitor for EmptyIfVisitor {
                         }
                     };
 
-                    self.positions.push((
-                        (
-                            else_if.start_position().unwrap().bytes() as u32,
-                            next_token_position,
-                        ),
-                        EmptyIfKind::ElseIf,
-                    ));
+                    let span = (
+                        else_if.start_position().unwrap().bytes() as u32,
+                        next_token_position,
+                    );
+
+                    self.positions.push((span, span, EmptyIfKind::ElseIf));
                 }
             }
         }
 
         if let Some(else_block) = if_block.else_block() {
             if block_is_empty(else_block) {
-                self.positions.push((
-                    (
-                        if_block.else_token().start_position().unwrap().bytes() as u32,
-                        if_block.end_token().end_position().unwrap().bytes() as u32,
-                    ),
-                    EmptyIfKind::Else,
-                ));
+                let span = (
+                    if_block.else_token().start_position().unwrap().bytes() as u32,
+                    if_block.end_token().end_position().unwrap().bytes() as u32,
+                );
+
+                self.positions.push((span, span, EmptyIfKind::Else));
             }
         }
     }
